@@ -454,6 +454,15 @@ impl<'a> Iterator for StrftimeItems<'a> {
     }
 }
 
+#[cfg(chrono_verif)]
+impl StrftimeItems<'_> {
+    /// Verification hook (read-only): progress measure of the iterator,
+    /// `(bytes of the format string not yet consumed, queued items not yet returned)`.
+    pub fn verif_measure(&self) -> (usize, usize) {
+        (self.remainder.len(), self.queue.len())
+    }
+}
+
 impl<'a> StrftimeItems<'a> {
     fn error<'b>(
         &mut self,
